@@ -97,6 +97,9 @@ func applyBackendMisbehaviour(c *Chooser, rp *RespPlan, k string) string {
 		}
 	case "raw-garbage":
 		rp.RawBody = c.Bytes(c.Range(0, 40))
+	case "ok-no-message":
+		// success without the one response message a unary method owes (only meaningful for methods without server streaming)
+		rp.Msgs, rp.Err = nil, nil
 	case "bad-ct":
 		rp.ContentType = Pick(c, "", "text/plain", "application/json", "application/grpc", "application/grpc+", "application/connect+", "application/proto", "application/x-unknown", "application/grpc-web+json")
 	}
@@ -133,6 +136,14 @@ func c03Oracle(p *Plan) *Verdict {
 	if facts["path"] == "passthrough" && (p.Note != "" || p.RPCs[0].Backend.Resp.StrayHTTPTrailer) {
 		return v // the transcoder is not in the data path; C13 checks that it forwards unchanged (a misbehaving backend's bytes included)
 	}
+	if p.Note == "ok-no-message" {
+		if b := st.backend(); b != nil && !b.Stream && b.Codec == p.RPCs[0].Client.Codec {
+			// an un-enveloped backend that answers with zero bytes in the client's own codec: the body is handed on as it is
+			// (nothing is decoded on that path), and whether zero bytes are a message is between that backend and its codec
+			v.probe("empty-body-same-codec-not-judged")
+			return v
+		}
+	}
 	checkClientResponse(v, p, r, 0, facts)
 	return v
 }
@@ -143,7 +154,7 @@ func init() {
 		Level: "exploration",
 		Rule: "seeded single-RPC scenarios; half well-formed (success, error before/after k messages, trailers-only, both trailer styles, per-message compression flags, declared content length), " +
 			"half with one scripted backend misbehaviour (cut mid-frame, missing end, garbage end frame, wrong Content-Length, bare HTTP status with arbitrary body, bad flags/lengths, non-numeric or out-of-range grpc-status, " +
-			"garbage body, wrong content-type), and an eighth with an end of RPC (error message, trailing metadata) larger than a small message limit; the response-writer event history goes through a strict validator for the client's own protocol and the exactly-one-terminal count; " +
+			"garbage body, wrong content-type, success without the one message a unary method owes), and an eighth with an end of RPC (error message, trailing metadata) larger than a small message limit; the response-writer event history goes through a strict validator for the client's own protocol and the exactly-one-terminal count; " +
 			"distinct = (form>target/path/shape/misbehaviour, schedule hash); non-trivial = a response was produced",
 		Gen: func(c *Chooser, tier string) *Plan {
 			p := genScenario(c, ScenOpts{MaxMsgs: 3, MaxBytes: 100, Segment: c.Prob(0.3)})
@@ -184,7 +195,7 @@ func init() {
 			}
 			if c.Bool() {
 				// behaviours the transcoder can answer with a valid response: nothing malformed has been forwarded yet
-				p.Note = applyBackendMisbehaviour(c, &p.RPCs[0].Backend.Resp, Pick(c, "cl-exact", "bare", "bad-ct", "omit-end", "end-garbage", "status-text", "flag"))
+				p.Note = applyBackendMisbehaviour(c, &p.RPCs[0].Backend.Resp, Pick(c, "cl-exact", "bare", "bad-ct", "omit-end", "end-garbage", "status-text", "flag", "ok-no-message"))
 			}
 			return p
 		},
